@@ -116,10 +116,60 @@ def rule_no_delivery_on_failure(ctx):
     ctx.require(len(dec) == 1, "_exception_from_message: decode site not found")
     ctx.ob("ERROR: the compared URI is the one given to decode", norm.text(dec[0][1].args[1]).endswith(".error") and
            _uri_compared(fn.node, [n for n in g2.stmt_nodes() if n.kind == "test"], dec[0][1], res2) is not None, "comparison changed", fn.loc())
-    ret = [n for n in g2.stmt_nodes() if n.kind == "stmt" and isinstance(n.ast, ast.Return) and norm.text(n.ast.value) == "enc_err"]
-    ctors = [n for n in g2.stmt_nodes() for c in node_calls(n) if (isinstance(c.func, ast.Name) and c.func.id == "ecls") or call_name(c) == "exception.ApplicationError"]
-    ok = len(ret) == 1 and ("truth", "enc_err", None, True) in mf2.at(ret[0]) and all(("truth", "enc_err", None, False) in mf2.at(n) for n in ctors)
-    ctx.ob("ERROR: an undecryptable error surfaces as the encryption error, never as an exception built from untrusted args", ok, "changed", fn.loc())
+    # cell-wise over (codec present?) x (decode raises / returns another URI / returns the envelope URI) x (URI registered?): an error that
+    # cannot be trusted surfaces as the matching encryption error and no exception is built from its payload; a trusted one is built from
+    # the DECRYPTED args/kwargs
+    from ..core.tiny import Tiny, Sym, TinyRaise
+    from .common import inline_private
+    import itertools
+    bs = ctx.program.cls(BASESESSION)
+    body = [x for x in fn.node.body if not (isinstance(x, ast.Expr) and isinstance(x.value, ast.Constant))]
+    probs = []
+    try:
+        for codec, outcome, registered in itertools.product((False, True), ("raises", "other-uri", "same-uri"), (True, False)):
+            built = []
+            dec_args, dec_kwargs = [Sym("decrypted-arg")], {"k": Sym("decrypted-kwarg")}
+
+            def decode(is_orig, uri, enc):
+                if outcome == "raises":
+                    raise TinyRaise("Exception")
+                return ["com.err" if outcome == "same-uri" else "com.forged", dec_args, dec_kwargs]
+
+            def default(f_, a_, k_=None):
+                if f_ in ("ApplicationError", "exception.ApplicationError"):
+                    o = Sym("ApplicationError", args=list(a_), kwargs=dict(k_ or {}))
+                    built.append(o)
+                    return o
+                return Sym(f"<{f_}>")
+            ecls = Sym("registered-class", methods={"__call__": lambda *a_, **k_: (built.append(Sym("user-exception", args=list(a_), kwargs=dict(k_))), built[-1])[1]})
+            m = fn.params()[1]
+            msg = Sym("error-message", enc_algo="cryptobox", error="com.err", args=None, kwargs=None, payload=Sym("ciphertext"), enc_serializer="json", enc_key=None,
+                      callee=None, callee_authid=None, callee_authrole=None, forward_for=None)
+            env = {"self": Sym("session"), m: msg, "self._payload_codec": Sym("codec", methods={"decode": decode}) if codec else None,
+                   "self._uri_to_ecls": {"com.err": ecls} if registered else {},
+                   "ApplicationError.ENC_NO_PAYLOAD_CODEC": "ENC_NO_PAYLOAD_CODEC", "ApplicationError.ENC_DECRYPT_ERROR": "ENC_DECRYPT_ERROR",
+                   "ApplicationError.ENC_TRUSTED_URI_MISMATCH": "ENC_TRUSTED_URI_MISMATCH"}
+            t = Tiny(env, default_call=default, inline_self=inline_private(ctx, bs, exclude=("_swallow_error",)))
+            r = t.run(body)
+            cell = f"codec {'active' if codec else 'absent'}, decode {outcome.replace('-', ' ')}, error URI {'registered' if registered else 'not registered'}"
+            want_enc = "ENC_NO_PAYLOAD_CODEC" if not codec else ("ENC_DECRYPT_ERROR" if outcome == "raises" else ("ENC_TRUSTED_URI_MISMATCH" if outcome == "other-uri" else None))
+            if r[0] != "return" or not isinstance(r[1], Sym):
+                probs.append(f"{cell}: {r[0]} {str(r[1])[:60]}: no exception object returned")
+                continue
+            o = r[1]
+            if want_enc:
+                if not (o.name == "ApplicationError" and o.attrs["args"][:1] == [want_enc]) or len(built) != 1:
+                    probs.append(f"{cell}: surfaces as {o.name}{o.attrs.get('args', '')} after building {len(built)} exception object(s), expected only ApplicationError({want_enc}, ...)")
+            else:
+                used_a = o.attrs.get("args", [])
+                used_k = o.attrs.get("kwargs", {})
+                ok_ = (dec_args[0] in used_a) and used_k.get("k") is dec_kwargs["k"] and (o.name == ("user-exception" if registered else "ApplicationError"))
+                if not ok_:
+                    probs.append(f"{cell}: surfaces as {o.name} with {used_a}, {used_k}; expected the exception built from the decrypted args/kwargs")
+        ctx.ob("ERROR: an undecryptable / forged error surfaces as the matching encryption error, never as an exception built from untrusted args; a trusted one is built "
+               "from the decrypted payload [12 cells]", not probs, "; ".join(probs[:2]), fn.loc())
+    except AnalysisError as e:
+        raise AnalysisError(f"[C20.1-no-delivery-on-failure] _exception_from_message outside the modelled subset: {e}")
 
 
 def rule_no_clear_payload(ctx):
